@@ -122,6 +122,12 @@ def check(tier, seed):
     rep.coverage.update(camp.coverage())
     rep.coverage['known_finding_instances_seen'] = len(known)
     rep.coverage['lbfgs_witness_on_real_code'] = lbfgs_witness()
+    # best networks / lowest loss across save() and load() of real solvers (several loads in one process, default configuration)
+    import random
+    from . import C18 as _C18
+    pbad, pruns, pstats = _C18.stream_real(random.Random(seed * 31 + 5), 3 if tier == 'quick' else 12, True)
+    rep.coverage['persisted_best_tracking'] = dict(save_load_cycles=pruns, **pstats)
+    bad += [b for b in pbad if any(w in b.get('violated', '') for w in ('best', 'lowest'))]
     rep.samples = [dict(script=l, solver=kw) for l, kw in camp.scripts[:3]]
     rep.assumptions = ['optimiser arithmetic is an oracle (scripted integer optimisers in the correspondence; real Adam/LBFGS are not modelled)',
                        'deepcopy of the networks is a value copy (observed: best_nets never aliases nets)',
